@@ -77,6 +77,12 @@ func execHeap(in val.V) val.V {
 					_ = m.UnmarshalText(nil)
 				case 7:
 					_ = m.UnmarshalText([]byte("data: " + op.At(2).Str() + "\n\n"))
+				case 8:
+					text := "event: " + op.At(2).Str() + "\n"
+					if op.At(3).Present() {
+						text += "data: " + op.At(3).At(0).Str() + "\n"
+					}
+					_ = m.UnmarshalText([]byte(text + "\n"))
 				default:
 					var stored *sse.Message
 					var err error
@@ -130,6 +136,10 @@ func withHints(ops []val.V) val.V {
 				op = val.L(op.At(0), op.At(1), op.At(2), op.At(3), c)
 			} else if c.K == 'n' {
 				op = val.L(op.At(0), op.At(1), op.At(2), c)
+			}
+		} else if k == 8 && obs.K == '(' && i < obs.Len() {
+			if c := obs.At(i).At(op.At(1).Int()).At(2); c.K == 'n' && op.At(3).Present() {
+				op = val.L(op.At(0), op.At(1), op.At(2), op.At(3), c)
 			}
 		}
 		out[i] = op
@@ -227,6 +237,35 @@ func genHeap(c *Ctx) {
 			c.Emit(withHints(ops))
 		}
 	}
+	// exhaustive: a message decoded from an event with a type and no (or one) data line, with k earlier lines or none,
+	// then cloned / published, then every member appended to in every order
+	for k := 0; k <= 3; k++ {
+		for withLine := 0; withLine < 2; withLine++ {
+			for how := 0; how < 3; how++ {
+				for order := 0; order < 6; order++ {
+					ops := []val.V{}
+					for i := 0; i < k; i++ {
+						ops = append(ops, app(0, i))
+					}
+					ops = append(ops, val.L(val.N(8), val.N(0), val.S("ping"), val.Opt(val.S("only"), withLine == 1), val.N(0)))
+					switch how {
+					case 0:
+						ops = append(ops, val.L(val.N(4), val.N(0)), val.L(val.N(4), val.N(1)))
+					case 1:
+						ops = append(ops, val.L(val.N(6), val.N(0), val.N(0)), val.L(val.N(6), val.N(0), val.N(0)))
+					default:
+						ops = append(ops, val.L(val.N(6), val.N(0), val.N(1)), val.L(val.N(4), val.N(0)))
+					}
+					perm := [][3]int{{0, 1, 2}, {0, 2, 1}, {1, 0, 2}, {1, 2, 0}, {2, 0, 1}, {2, 1, 0}}[order]
+					for n, t := range perm {
+						ops = append(ops, app(t, 20+n))
+					}
+					c.Count("exhaustive-decode-dataless-then-share")
+					c.Emit(withHints(ops))
+				}
+			}
+		}
+	}
 	// exhaustive: Put through all four replayers of a message whose ID is unset / set and empty / set
 	for idk := 0; idk < 3; idk++ {
 		for kind := 0; kind < 4; kind++ {
@@ -278,9 +317,12 @@ func genHeap(c *Ctx) {
 			case x < 82:
 				ops = append(ops, val.L(val.N(5), val.Int(t)))
 				c.Count("op:reset")
-			case x < 86:
+			case x < 84:
 				ops = append(ops, val.L(val.N(7), val.Int(t), line(c.R.Intn(26)), val.N(0)))
 				c.Count("op:unmarshal")
+			case x < 86:
+				ops = append(ops, val.L(val.N(8), val.Int(t), val.S("ty"), val.Opt(line(c.R.Intn(26)), c.R.Bool()), val.N(0)))
+				c.Count("op:unmarshal-typed")
 			case x < 95:
 				// the family grows only if the Put is accepted (the target has no ID): keep targets conservative
 				ops = append(ops, val.L(val.N(6), val.Int(t), val.Int(c.R.Intn(4))))
